@@ -201,6 +201,12 @@ intermediate genesis) all go into ONE batch written by a single `WriteSync`: the
 node that dies is either entirely before or entirely after it. -/
 def switchWriteGroups : Nat := 1
 
+/-- the identity state lives under a db prefix that encodes a height (keys.go:147 `buildDbPrefix`, injective): 0 for a
+node that started from genesis, `G` after a snapshot import `CommitSnapshot(G)` (identity_statedb.go:479), the prefix
+of the preliminary copy after a completed fast sync (`SwitchToPreliminary`, :391).  `CreatePreliminaryCopy(head)`
+(:427) copies the live database to the prefix of `head + 1`. -/
+def prelimPrefixHeight (head : Nat) : Nat := head + 1
+
 /-- a diff entry that neither deletes nor carries a value -/
 def Diff.malformed (d : Diff) : Bool := d.any (fun v => !v.deleted && decide (v.value = []))
 
